@@ -107,7 +107,7 @@ def run(chk):
     thorough = chk.tier == 'thorough'
     rng = chk.rng
     ng, ndis = apiseq.glyph_leg(chk, hexe, mexe, S.FONTS, 60 if thorough else 8)
-    variants = [(o, s) for o in range(8) for s in ('cb', 'file')]
+    variants = [(o, s) for o in range(8) for s in ('cb', 'file', 'cbnorel')]      # cbnorel: table callbacks without a release_table function
     cases, groups = [], []
     for k in range(700 if thorough else 60):
         font = rng.choice(S.FONTS)
@@ -126,6 +126,24 @@ def run(chk):
         for (o, sm) in variants:
             g.append(len(cases)); cases.append('y%d.%d%s api %s %d %s - %s' % (len(groups), o, sm, p, o, sm, ' '.join(ops)))
         groups.append(('synthetic cmap on ' + src, g))
+    # a name table of format 1 (legal OpenType; TtfUtil::CheckTable turns it away, so every kind of face must ignore it alike): feature and
+    # setting labels and everything else a face reports, under every option set and table source
+    from props import fontkit as _K
+    for src in ('Padauk.ttf', 'charis_r_gr.ttf', 'Scheherazadegr.ttf'):
+        data = open(os.path.join(vlib.REPO, 'tests/fonts', src), 'rb').read()
+        no, nl = _K.font_tables(data)[b'name']
+        nm = bytearray(data[no:no + nl])
+        cnt, so = struct.unpack('>HH', nm[2:6])
+        nm[0:2] = b'\x00\x01'
+        nm[4:6] = struct.pack('>H', so + 2)
+        nm[6 + 12 * cnt:6 + 12 * cnt] = b'\x00\x00'                 # langTagCount = 0
+        p = os.path.join(tmp, 'name1_' + src)
+        open(p, 'wb').write(_K.replace_table(data, b'name', bytes(nm)))
+        ops = ['info'] + ['label:%d:%d:%d' % (fi, rng.choice((0x409, 0, 0x455)), rng.choice((8, 16, 32))) for fi in range(4)] + ['vlabel:%d:%d:%d:%d' % (fi, 0, 0x409, 8) for fi in range(3)] + ['info']
+        g = []
+        for (o, sm) in variants:
+            g.append(len(cases)); cases.append('n%d.%d%s api %s %d %s - %s' % (len(groups), o, sm, p, o, sm, ' '.join(ops)))
+        groups.append(('format 1 name table on ' + src, g))
     # the strings the repository itself tests each font with (whole lines of its comparison corpus), lazily loaded against preloaded faces:
     # glyphs that shaping touches only indirectly (collision exclusion glyphs, pseudo glyphs) are loaded by different routes
     # a collision font whose glyphs have bounding octaboxes but no sub-boxes (the preloading constructor reads the octaboxes in the same
